@@ -1456,6 +1456,14 @@ impl DbInner {
 				// On error the log reader may be left in inconsistent state. So it is important
 				// to no attempt any further log enactment.
 				log::debug!(target: "parity-db", "Shutdown with error state {}", err);
+				// The dirty logs are enacted, but the tables they were enacted into may not have
+				// been flushed since: flush first (as `clean_logs` does), and keep the logs for
+				// the next open if that fails.
+				if self.options.sync_data {
+					for c in self.columns.iter() {
+						c.flush()?;
+					}
+				}
 				self.log.clean_logs(self.log.num_dirty_logs())?;
 				return Ok(())
 			}
